@@ -50,3 +50,10 @@ claimed["C08"] = (
     "a broken client->server stream is modelled as the server seeing end of input and closing its output; in-payload corruption is not demanded (only an all-0xff garbage tail makes 'not intact' decidable); the SDK's 5 s close timeout is waited for in real time",
     "DESIGN.md §3 C08",
 )
+claimed["C04"] = (
+    "exploration",
+    "supervised worker processes (recovered panics, fatal-crash attribution by journal, CPU-time non-termination verdict) over generated schemas x hostile value domain at every position",
+    "Generated schemas of all 15 kinds (map-based and struct-mapped objects, typed enums, one-of, treat-empty-as-default, recursive references) are hit with ~66 classes of hostile values (nil, typed nils, wrong kinds, NaN/Inf, 2^63, []byte, cbor.Tag, big.Int, typed maps/slices, odd map keys, named scalars, pointers, wrong structs, funcs) at the root, substituted at random positions of valid inputs and of unserialized natives, plus alternative representations, CBOR images and 2000-deep nesting, through Unserialize, data-mode ValidateCompatibility, Validate and Serialize. Any recovered panic, fatal exit (stack overflow) or 20 s of CPU on one journalled call is a violation. Held on the calls made (sampled pairs of schema position x dynamic type).",
+    "struct-mapped objects range over a fixed pool of Go types; nesting depth 2000 (quadratic error-message building makes deeper inputs slow but terminating, which is not demanded)",
+    "DESIGN.md §3 C04",
+)
